@@ -442,4 +442,109 @@ def blockSound : Sound blockAuto where
   slot_sound := fun e q qs v hv hs => bslot_sound e q qs v hv hs
   oneLine_sound := boneLine_sound
 
+/-! ### docstring sites need no hypothesis: `indent(4)` always produces the docstring shape -/
+
+theorem splitlines_noNL : ∀ (s : List Char), ∀ l ∈ splitlines s, ∀ c ∈ l, c ≠ '\n' := by
+  intro s
+  fun_induction splitlines s with
+  | case1 => intro l hl; cases hl
+  | case2 r ih =>
+    intro l hl
+    rcases List.mem_cons.mp hl with rfl | h
+    · intro c hc; cases hc
+    · exact ih l h
+  | case3 c r hne hb ih =>
+    intro l hl
+    rcases List.mem_cons.mp hl with rfl | h
+    · intro c hc; cases hc
+    · exact ih l h
+  | case4 c r hne hb hs ih =>
+    intro l hl
+    have : l = [c] := by simpa using hl
+    subst this
+    intro d hd
+    have : d = c := by simpa using hd
+    subst this
+    intro e; subst e; simp [isBreak] at hb
+  | case5 c r hne hb l0 ls hs ih =>
+    intro l hl
+    rcases List.mem_cons.mp hl with rfl | h
+    · intro d hd
+      rcases List.mem_cons.mp hd with rfl | hd'
+      · intro e; subst e; simp [isBreak] at hb
+      · exact ih l0 (by rw [hs]; exact List.mem_cons_self) d hd'
+    · exact ih l (by rw [hs]; exact List.mem_cons_of_mem _ h)
+
+theorem docShape_nl (a : Bool) (r : List Char) : docShape a ('\n' :: r) = docShape true r := by
+  cases a <;> simp [docShape]
+
+theorem docShape_false_cons {c : Char} (r : List Char) (hc : c ≠ '\n') :
+    docShape false (c :: r) = docShape false r := by
+  rw [docShape]
+  intro h; exact absurd h hc
+
+theorem docShape_false_line : ∀ (l s : List Char), (∀ c ∈ l, c ≠ '\n') →
+    docShape false (l ++ s) = docShape false s := by
+  intro l
+  induction l with
+  | nil => intro s _; rfl
+  | cons c r ih =>
+    intro s h
+    show docShape false (c :: (r ++ s)) = _
+    rw [docShape_false_cons _ (h c List.mem_cons_self)]
+    exact ih s (fun d hd => h d (List.mem_cons_of_mem _ hd))
+
+theorem docShape_false_plain (l : List Char) (h : ∀ c ∈ l, c ≠ '\n') : docShape false l = true := by
+  have := docShape_false_line l [] h
+  simpa [docShape] using this
+
+theorem docShape_true_ind (l s : List Char) (h : ∀ c ∈ l, c ≠ '\n') :
+    docShape true (ind 4 l ++ '\n' :: s) = docShape true s := by
+  unfold ind
+  cases l with
+  | nil => simp [docShape]
+  | cons c r =>
+    simp only [List.isEmpty_cons, Bool.false_eq_true, if_false]
+    show docShape true (' ' :: ' ' :: ' ' :: ' ' :: ((c :: r) ++ '\n' :: s)) = _
+    rw [docShape]
+    rw [docShape_false_line (c :: r) _ h, docShape_nl]
+
+theorem docShape_true_ind_last (l : List Char) (h : ∀ c ∈ l, c ≠ '\n') : docShape true (ind 4 l) = true := by
+  unfold ind
+  cases l with
+  | nil => simp [docShape]
+  | cons c r =>
+    simp only [List.isEmpty_cons, Bool.false_eq_true, if_false]
+    show docShape true (' ' :: ' ' :: ' ' :: ' ' :: (c :: r)) = _
+    rw [docShape]
+    exact docShape_false_plain _ h
+
+theorem docShape_joinNL : ∀ (ls : List (List Char)), (∀ l ∈ ls, ∀ c ∈ l, c ≠ '\n') →
+    docShape true (joinNL (ls.map (ind 4))) = true := by
+  intro ls
+  induction ls with
+  | nil => intro _; simp [joinNL, docShape]
+  | cons l r ih =>
+    intro h
+    cases r with
+    | nil => simpa [joinNL] using docShape_true_ind_last l (h l List.mem_cons_self)
+    | cons l2 r2 =>
+      simp only [List.map_cons, joinNL_cons2]
+      rw [docShape_true_ind _ _ (h l List.mem_cons_self)]
+      exact ih (fun x hx => h x (List.mem_cons_of_mem _ hx))
+
+/-- whatever the text, `indent(4)` leaves every later line empty or indented by 4 blanks -/
+theorem docShape_indentStr (x : List Char) : docShape false (indentStr 4 x) = true := by
+  rw [indentStr_eq]
+  have hnl := splitlines_noNL (x ++ ['\n'])
+  cases hL : splitlines (x ++ ['\n']) with
+  | nil => simp [fin, docShape]
+  | cons first rest =>
+    rw [hL] at hnl
+    simp only [fin]
+    split
+    · exact docShape_false_plain _ (hnl first List.mem_cons_self)
+    · rw [docShape_false_line _ _ (hnl first List.mem_cons_self), docShape_nl]
+      exact docShape_joinNL rest (fun l hl => hnl l (List.mem_cons_of_mem _ hl))
+
 end Dcg.Proofs.TemplateBlock
